@@ -11,6 +11,7 @@ from vlib import say
 CONF = {
     "C04": {"quick": 96, "thorough": 3000, "batch": 6, "min_distinct": 8, "loops": [1, 2]},
     "C05": {"quick": 1600, "thorough": 60000, "batch": 100, "min_distinct": 20, "loops": [1, 2]},
+    "C06": {"quick": 1600, "thorough": 60000, "batch": 100, "min_distinct": 20, "loops": [1, 2]},
     "C09": {"quick": 1600, "thorough": 60000, "batch": 100, "min_distinct": 20, "loops": [1, 2]},
 }
 
